@@ -3,7 +3,8 @@
    the table is the list of mountinfo lines (Model.MountInfo.kline) in attachment order.
    This is also the specification of the Go simulated kernel of the harness (harness/simk),
    which is compared with it after every command, and it is refereed against the real kernel
-   in the thorough tier.  Assumptions: one mount namespace, all mounts private. *)
+   in the thorough tier.  Assumptions: one mount namespace, all mounts private; see [hidden_at] for mounts
+   covered by a later mount. *)
 From LC Require Import Lib.Bytes Lib.Lex Lib.Fields Lib.PathM Model.MountInfo Model.FsTree.
 Open Scope N_scope.
 
@@ -118,11 +119,54 @@ Definition kmount (fs : fsT) (ks : kstate) (src tgt fstype : bytes) (flags : N) 
 Definition remove_id (tab : list kline) (id : bytes) : list kline :=
   filter (fun k => negb (beq (k_id k) id)) tab.
 
+(* Hidden mounts.  A mount stays in the table (and in /proc/self/mountinfo) when a LATER mount is
+   made on one of the ancestor directories of its mountpoint: import at <build>/var/db/repos, then
+   a tmpfs (or a non-recursive bind) on <build>/var/db.  The later mount covers the directory tree
+   the mountpoint lies in; path resolution of <build>/var/db/repos now goes through the cover and
+   never reaches the dentry the older mount is attached to.  The older mount is hidden: still
+   listed, not reachable by its path.  umount(2) of the path fails -- ENOENT when the directory
+   is absent in the cover (empty tmpfs), EINVAL when it is present (then it is a plain directory,
+   "not a mountpoint") -- until the cover has been unmounted.
+
+   The rule: [hidden_at tab p] = after the LAST line whose mountpoint is p there is a line whose
+   mountpoint is a strict ancestor directory of p.
+   * Only later lines count.  Lines are in attachment order, so a line at an ancestor that is
+     EARLIER than the line at p is part of p's own parent chain (the overlay on <build>, then the
+     import inside it) and hides nothing.
+   * Stacked mounts on one mountpoint: the rule looks at the topmost (last) line at p, the one
+     umount(2) would detach.  With [Y at /a/b/c; Z at /a/b; Y2 at /a/b; W at /a/b/c] the first
+     umount of /a/b/c detaches W (nothing later lies above it), the second fails: Y is now the
+     last line at /a/b/c and Z, Y2 come after it.
+   * Copies carried by a recursive bind keep the relative order of their originals
+     (rbind_copies), so a hidden original gives a hidden copy, as on Linux (copy_tree clones hidden
+     children too).
+   Validated on Linux 6.18 in a private mount namespace (tmpfs on a/b, tmpfs on a: umount a/b
+   fails, after umount a it succeeds; the stacked case and the rbind case above) and refereed by
+   harness/cdom/referee.go.
+   Approximations: (1) the file tree of this model is not affected by mounts, so whether the
+   cover contains the directory is not known; both errno values are the one outcome KErr.
+   (2) mount(2) is not aware of covers: [covering] and the submount selection of a recursive bind
+   go by path prefixes, so a mount onto, or a recursive bind from, a path at or below a hidden
+   mountpoint is outside the validated domain (the generators make covers only as the last
+   disturbance before umount / probe steps). *)
+Definition hidden_at (tab : list kline) (p : bytes) : bool :=
+  fold_left (fun h k => if beq (k_mp k) p then false else if under (k_mp k) p then true else h) tab false.
+
+(* [nocov P tab]: no line selected by P has a LATER line mounted on a strict ancestor directory of
+   its mountpoint, i.e. none of them is hidden or can become hidden by unmounting what is stacked
+   on it. *)
+Fixpoint nocov (P : kline -> bool) (tab : list kline) : bool :=
+  match tab with
+  | [] => true
+  | k :: r => (negb (P k) || forallb (fun m => negb (under (k_mp m) (k_mp k))) r) && nocov P r
+  end.
+
 Definition kumount (ks : kstate) (tgt : bytes) (flags : N) : kres :=
   match top_at (ks_tab ks) tgt with
   | None => KErr
   | Some k =>
-    if existsb (fun m => beq (k_parent m) (k_id k) && negb (beq (k_id m) (k_id k))) (ks_tab ks)
+    if hidden_at (ks_tab ks) tgt then KErr
+    else if existsb (fun m => beq (k_parent m) (k_id k) && negb (beq (k_id m) (k_id k))) (ks_tab ks)
     then KErr
     else KOk (MkKS (remove_id (ks_tab ks) (k_id k)) (ks_nextid ks) (ks_nextdev ks))
   end.
